@@ -6,9 +6,10 @@
 # usage: confirm_seed.sh <ID> [name]
 set -u
 ID=$1; NAME=${2:-$1}
-SRC=/tmp/seed_$ID/seed_out
+PFX=${SEED_PREFIX:-/tmp/seed_}
+SRC=$PFX$ID/seed_out
 # the helper's own worktree is reused (its build cache saves minutes); it is reset to HEAD first
-WT=/tmp/seed_$ID
+WT=$PFX$ID
 [ -f $SRC/patch.diff ] || { echo "no patch.diff in $SRC"; exit 2; }
 git -C $WT checkout -q -- . ; git -C $WT clean -fdq -e sim/target -e seed_out
 [ -z "$(git -C $WT status --porcelain -- sim | grep -v target)" ] || { echo "worktree not clean"; exit 2; }
